@@ -1062,6 +1062,53 @@ def long_name_probe(ctx, tools, unz):
     return res
 
 
+def hostile(ctx, tools, unz):
+    """self-check of the shared parser: on damaged images `unz` (ASan build) and the Lean parser/validator must terminate
+    normally (they are total by construction: fuel / structural recursion / bounds-checked reads)"""
+    import random, shutil
+    rng = random.Random("hostile/%d" % ctx.seed)
+    wd = ctx.scratch / "hostile"
+    t = build_tree(rng, {"kind": "mixed", "n": 30}, 4096)
+    has_x = write_inputs(t, wd)
+    img = wd / "base.sqfs"
+    r = shx([str(tools["gensquashfs"]), "-q", "-f", "-c", "gzip", "-b", "4096", "-e", "-F", str(wd / "pack.txt"), "-D", str(wd)]
+            + (["-A", str(wd / "xattr.txt")] if has_x else []) + [str(img)], env=ctx.san_env(), timeout=300)
+    if r.returncode != 0:
+        return {"hostile_mutants": 0}
+    unz_san = ctx.cc("unz_san", ["unz.c"], libs=["-lz", "-llzma", "-llz4", "-lzstd"])
+    base = img.read_bytes()
+    n = 30 if ctx.quick() else 250
+    failed = 0
+    for it in range(n):
+        b = bytearray(base)
+        for _ in range(rng.choice([1, 2, 5, 20])):
+            x = rng.random()
+            pos = rng.randrange(0, 96) if x < 0.5 else rng.randrange(max(0, len(b) - 6000), len(b)) if x < 0.8 else rng.randrange(len(b))
+            if rng.random() < 0.3 and pos + 8 <= len(b):
+                struct.pack_into("<Q", b, pos, rng.choice([0, 1, 0xFFFFFFFFFFFFFFFF, 0xFFFFFFFFFFFFFFFE, len(b), 2 ** 63, rng.randrange(2 ** 64)]))
+            else:
+                b[pos] = rng.randrange(256)
+        if rng.random() < 0.1:
+            b = b[:rng.randrange(0, len(b))]
+        m = wd / "m.sqfs"
+        m.write_bytes(b)
+        try:
+            r = shx([str(unz_san), str(m)], env=ctx.san_env(), timeout=120)
+            if r.returncode != 0:
+                raise RuntimeError("unz exit %d: %s" % (r.returncode, r.stderr[-200:]))
+            for mode in (["validate"], ["parse"], ["blockreq"]):
+                ctx.driver(["c03"] + mode, r.stdout, timeout=120)
+        except Exception as e:      # noqa: the parser is shared infrastructure: any failure here is reported as such
+            failed += 1
+            keep = vlib.REPLAYS / ("C03-hostile-%d-%d.sqfs" % (ctx.seed, it))
+            vlib.REPLAYS.mkdir(exist_ok=True)
+            keep.write_bytes(b)
+            report(ctx, "infra:parser-robustness:%d" % it, "the independent parser/unz did not terminate normally on a damaged image (%s); image kept at %s" % (str(e)[:200], keep),
+                   {"kind": "hostile", "image": str(keep)}, found_input=False)
+    shutil.rmtree(wd, ignore_errors=True)
+    return {"hostile_mutants": n, "hostile_failures": failed}
+
+
 def images(ctx, tools, unz):
     jobs = image_jobs(ctx)
     results = []
@@ -1138,6 +1185,8 @@ def run(ctx):
         ctx.log("long-name probe done")
         c4 = numbering(ctx, tools["h_c03n"])
         ctx.log("numbering done")
+        c4.update(hostile(ctx, tools, unz))
+        ctx.log("parser robustness self-check done")
         c1, c3 = f1.result(), f3.result()
     ctx.cov.update(c1)
     ctx.cov.update(c2)
